@@ -455,10 +455,24 @@ class ExecMixin:
                     if not isinstance(c, Outcome):
                         body_in.append(st1)
             written = set(rec.recording)
+            _, ls = self.loop_spec(s)
             for b in body_in:
                 for o in self.ex_block(s.body, b):
+                    if ls is not None and o.kind in ('normal', 'continue'):
+                        for g in ls.ghost_end:       # ghost updates are writes too (their targets are havoced)
+                            try:
+                                self.run_ghost(g, o.st)
+                            except (OutOfSubset, SpecError, KeyError):
+                                for n in ast.walk(ast.Module(body=g, type_ignores=[])):
+                                    if isinstance(n, ast.Name) and isinstance(n.ctx, ast.Store):
+                                        o.st.recording.add(('var', n.id))
                     written |= o.st.recording
                 written |= b.recording
+            if ls is not None:
+                for g in ls.ghost_end:
+                    for n in ast.walk(ast.Module(body=g, type_ignores=[])):
+                        if isinstance(n, ast.Name) and isinstance(n.ctx, ast.Store):
+                            written.add(('var', n.id))
         finally:
             self.suppress_obligations = sup
             self.steps = steps
